@@ -263,10 +263,8 @@ func (tree *lshTree) remove(node *lshNode, docid uint64, vector []float64, lengt
 				break
 			}
 		}
-		// If the node is empty, return nil to remove it
-		if len(node.ids) == 0 {
-			return nil
-		}
+		// An emptied leaf stays in place: replacing it by nil would make
+		// its parent look like a leaf and lose the sibling subtree.
 		return node
 	}
 
